@@ -168,6 +168,19 @@ PROPS = {
         assumptions=["sketch seeds and Bloom geometry are read from the real estimator through the verif-hooks accessor and validated (bloom_geometry_ok)",
                      "the KeyHashers installed by the harness (identity, multiplicative, constant) are the ones modelled by key_hash"],
     ),
+    "C12": dict(
+        level_text="Coq theorems for all five caches, for every state satisfying the C01 invariant (hence every reachable state): put returns Put iff the key was not retained and the retained set (resident and ghost entries of every partition) became exactly the old set plus the new pair; Update(old) iff the key was retained with value old and only that pair was replaced; Evicted / EvictedAndUpdate iff exactly the reported (key, value) entry left; after put the key is resident with the new value; a capacity-0 RawLRU hands the pair back. Same for put_protected and the *_or_put family. For ARC the result kind is proved truthful and nothing is ever invented, silent losses being ghost entries (exactly described by C09). PutResult equality is proved structural. Tied to /repo by differential execution on every partition list, plus a slice exercising PutResult's hand-written ==, clone and copy on generated pairs.",
+        props_files=["C12"],
+        theorems={"C12": ["C12_put_truth_def", "C12_lru", "C12_lru_capacity_zero", "C12_slru", "C12_slru_put_protected",
+                          "C12_twoq", "C12_arc", "C12_wtiny", "C12_or_put", "C12_structural"]},
+        slices=dict(quick=lru_slices(1500, 150, 2, 100000) + comp_slices(2500, 150, 1200)
+                    + [dict(name="putres", slice="putres", args=["--n", 40, "--len", 200], shards=2)],
+                    thorough=lru_slices(30000, 400, 3, 1000000) + comp_slices(40000, 400, 20000)
+                    + [dict(name="putres", slice="putres", args=["--n", 400, "--len", 400], shards=4)]),
+        corpus=ALL_CORPUS,
+        monitors=["mon_c12"],
+        assumptions=["retained entries are read through the verif-hooks accessors (every partition list, ghosts included)"],
+    ),
     "C13": dict(
         level_text="Coq theorems: in the models of all five caches every read-only call (peek, peek_mut without write, contains, len, cap, is_empty, peek_lru/peek_mru variants, get_mru, non-writing iterator scripts, per-segment accessors, partition(), Debug) returns the identical state - every list order, value, ARC's p and the W-TinyLFU estimator - and inserting any list of such calls at any position of any history changes neither the final state nor any later result (generic insertion theorem). Tied to /repo by differential execution comparing the full snapshot (all lists, p, estimator bytes) after every call.",
         props_files=["C13"],
